@@ -277,7 +277,7 @@ func runC04(c *core.Ctx) {
 		}
 		_, err := gqlparser.LoadSchema(ss...)
 		ge, ok := err.(*gqlerror.Error)
-		if err == nil || !ok {
+		if err == nil || !ok || ge == nil {
 			return
 		}
 		file, _ := ge.Extensions["file"].(string)
